@@ -24,7 +24,9 @@ RULE = ("bin tables of 1..5 chromosomes with 0..12 genes of 1..10 bins (names G1
         "its bins, probes = their sum), do_breaks (same segment layouts).  Direct calls hand the arguments over "
         "positionally, by keyword, or by keyword with every argument that equals its default left out.  Corpus: "
         "finding L witnesses, empty bin tables, empty / single-row segment tables for genemetrics and breaks; plus a "
-        "malformed stream (interleaved genes, comma-joined names, zero weights). About 35% of the well-formed "
+        "malformed stream (interleaved genes, comma-joined names, zero weights) and, for by_gene, EVERY layout of up to "
+        "3 (thorough: 4) bins over the names A, B, 'A,B', 'B,A', '-' (the excluded points of the hypothesis, "
+        "exhaustively: model = code row for row; Props/C16Excl.lean says what happens there). About 35% of the well-formed "
         "genemetrics / breaks cases (15-20% of all cases) run through the command line: the 6-digit bin table is "
         "written as .cnr (+ .cns, incl. the further columns and column order) and "
         "`cnvkit.py genemetrics|gainloss [-s] [-t] [-m] [--drop-low-coverage] [-y] [-x SEX] [--diploid-parx-genome G] "
@@ -44,6 +46,10 @@ ASSUMPTIONS = ["bins sorted, non-overlapping, positive length inside each chromo
                "squash_genes: optional columns in file-reader order (it fills rows by position; "
                "proposed_fixes/C16-squash-column-order.md); further columns are checked in Python, not by the model"]
 TRUSTED_EXTRA = ["pandas groupby(sort=False), DataFrame.iloc/loc slicing, np.average, Series.mean/median",
+                 "harness/exprtrans.py, typed reading (class TFn; rules at the top of the file): one iteration of the loops of "
+                 "by_gene / get_breakpoints / group_by_genes, segment_mean, the drop_low_coverage mask and the selection tests of "
+                 "genemetrics are re-read from cnvlib into Generated/ExprsByGene.lean, ExprsGeneMetrics.lean "
+                 "(Props/C16SrcByGene.lean, C16SrcReports.lean: the model equals them)",
                  "biweight_location (default squash summary, C19): only coordinates / row count compared"]
 PREFIX = bool(os.environ.get("C16_PREFIX_MODEL"))  # development: compare with the model of the code before fix L
 OTHER = ["Antitarget", "Antitarget", "-", ".", "CGH", "Background"]
@@ -463,9 +469,28 @@ def corpus():
     return cs
 
 
+EXCL_NAMES = ["A", "B", "A,B", "B,A", "-"]
+
+
+def _excluded_cases(maxlen):
+    """EXHAUSTIVE small scope at the excluded point of the hypothesis: every layout of up to `maxlen` bins on one
+    chromosome over the names A, B, `A,B`, `B,A`, `-` (interleaved genes A B A, nested A B B A, bins listing two genes
+    at / inside / outside a gene).  The property is silent there; the model is compared with the code row for row, which
+    ties Props/C16Excl.lean (no bin lost, a bin in the group of each gene it lists, a bin twice iff the hypothesis fails)"""
+    import itertools
+    cs = []
+    for n in range(1, maxlen + 1):
+        for lay in itertools.product(EXCL_NAMES, repeat=n):
+            rows = [_b(k, "chr1", 10 * k, 10 * k + 10, g) for k, g in enumerate(lay)]
+            cs.append({"op": "by_gene", "tag": "by_gene-excluded-exhaustive", "in": {"rows": rows, "ignore": None}})
+    return cs
+
+
 def gen_cases(rng, tier):
     n = {"quick": 400, "thorough": 4000, "search": 800}[tier]
-    cases = []
+    cases = _excluded_cases({"quick": 3, "thorough": 4, "search": 3}[tier])
+    if PREFIX:
+        cases = []
     for k in range(n):
         small = k % 4 == 0
         for op in ("by_gene", "genemetrics", "squash_genes", "breaks"):
